@@ -59,5 +59,19 @@ Fixpoint ends_underscore (s : str) : bool :=
 Definition head_ok (s : str) : bool :=
   match s with c :: _ => negb (is_digit c) | [] => false end.
 
+(* ASCII case folding (SQLite compares identifiers and LIKE operands this way) *)
+Definition fold_ascii (c : N) : N := if (65 <=? c) && (c <=? 90) then c + 32 else c.
+
+Fixpoint starts_with_nocase (p s : str) : bool :=
+  match p with
+  | [] => true
+  | x :: p' => match s with [] => false | y :: s' => (fold_ascii x =? fold_ascii y) && starts_with_nocase p' s' end
+  end.
+
+(* SQLite refuses to create objects whose name begins with "sqlite_" (any letter case) *)
+Definition sqlite_word : str := [115; 113; 108; 105; 116; 101].            (* "sqlite" *)
+Definition sqlite_reserved : str := sqlite_word ++ [underscore].           (* "sqlite_" *)
+Definition reserved_name (s : str) : bool := starts_with_nocase sqlite_reserved s.
+
 Definition starts_with_underscore (s : str) : bool :=
   match s with c :: _ => c =? underscore | [] => false end.
